@@ -83,6 +83,26 @@ Theorem C11_pay_funding_tx : forall f w s v w' vm,
 Proof. exact pay_funding_tx. Qed.
 Print Assumptions C11_pay_funding_tx.
 
+(* "no settlement is charged twice or skipped", the accrual side.  funding_num w v p = (cumulative fraction -
+   checkpoint of p) x size of p is the numerator of what p owes (funding_owed = funding_num / D, truncated).  A
+   PayFunding transaction writes no stored position, and raises funding_num of every position on that vAMM by
+   exactly premium fraction x size; a touch by the owner charges funding_owed and moves the checkpoint to the
+   current value (C11_trade_charges_once, C05_withdraw_margin_tx, C04_close_position_tx_pays_equity), i.e.
+   resets funding_num to zero.  So what a position is charged at a touch is the sum of the settlements since
+   its previous touch, each counted once. *)
+Theorem C11_settlement_accrues_once : forall f w s v w' vm,
+  exec_op f w (OEngine s (EPayFunding v) 0) = Ok w' ->
+  get_vamm w v = Ok vm -> wf0 (v_total (vs vm)) -> cpf_wf (w_eng w) v -> 0 < e_dec (ec (w_eng w)) ->
+  (forall x, o_twap (oracle_of w vm) (v_twap_interval (vc vm)) = Ok x -> 0 <= x) ->
+  (forall x, q_twap_price vm (w_env w) (v_twap_interval (vc vm)) = Ok x -> 0 <= x) ->
+  0 <= v_fperiod (vc vm) ->
+  if_engine (w_if w) = A_ENGINE -> e_ifund (ec (w_eng w)) = A_IFUND -> e_tmp (w_eng w) = None ->
+  exists vm' pf, settle_funding vm (w_env w) A_ENGINE (oracle_of w vm) = Ok (vm', pf) /\
+    (forall u t, find_position (w_eng w') u t = find_position (w_eng w) u t) /\
+    (forall p, funding_num w' v p = funding_num w v p + toZ pf * toZ (p_size p)).
+Proof. exact pay_funding_tx_accrues. Qed.
+Print Assumptions C11_settlement_accrues_once.
+
 (* non-vacuity: in the concrete scenario, after the funding time has passed and the oracle price was moved,
    PayFunding by a stranger succeeds, every premise holds, and collateral moves between vault and fund *)
 Definition c11_example : bool :=
